@@ -37,7 +37,7 @@ ASSUMPTIONS = ['n, order >= 1; options of the documented types',
                'sequences longer than 6 steps or with a symbolic complex ratio: no generated step is exactly zero']
 NOT_DECIDED = ['the numerical values of default_scale\'s tuning constants (the formula is pinned only through '
                'base_step == EPS**(1/scale) and scale > 0)', 'effect of use_exact_steps on rounding']
-BOUNDED = []
+BOUNDED = ['integer-x: integer-typed x compared with the same x as floats on 60 concrete (class, options, x) cases -- executed with the real numpy, not proved']
 QUANTIFIED = 'x (scalar and array elements), base_step, step_ratio, step_nom, offset (where given): universally quantified ' \
              'reals; n, order universally quantified integers in the count groups; discrete options enumerated exhaustively'
 
@@ -431,7 +431,7 @@ def run_intx():
                     bad.append((cls.__name__, opt, repr(e)[:60])); continue
                 if len(a) != len(b) or not all(np.array_equal(np.asarray(u, dtype=complex), np.asarray(v, dtype=complex)) for u, v in zip(a, b)):
                     bad.append((cls.__name__, opt, str(xi)[:20], [np.asarray(u).tolist() for u in a[:2]], [np.asarray(v).tolist() for v in b[:2]]))
-    solve.fact('integer-typed-x-gives-the-same-steps-as-the-same-x-in-floating-point[%d cases]' % cnt, not bad, note=str(bad[:2]))
+    solve.fact('integer-typed-x-gives-the-same-steps-as-the-same-x-in-floating-point[%d cases]' % cnt, not bad, kind='bounded', note=str(bad[:2]))
     return {}
 
 
